@@ -11,9 +11,11 @@ the steps of every other unit, including units released while a descendant is st
 
 Assumptions, all explicit:
 * `SemOk`: algorithms are deterministic functions of their source data and of the stored contents
-  of their declared inputs only (`loc`); one author per value (`own`); no algorithm declares an
-  own output as input (`noself`); a declared input is an edge (`edge`, which is `C09.edge_iff`);
-  tasks only (`tasks`: no aspects/analyses, so every unit is (algorithm, real target)).
+  of their declared inputs only (`loc`: a task unit reads its inputs on its own target and the
+  results of analyses under the all-targets marker; an analysis reads its inputs on every
+  target); one author per value (`own`); no algorithm declares an own output as input
+  (`noself`); a declared input is an edge (`edge`, which is `C09.edge_iff`).  Units are
+  (task algorithm, target) and (analysis, all-targets marker); the target set is fixed.
 * `ValidW`: workers load, store and report only for units they were given, in this order
   (`WOk` of `read`/`write`/`reply`), every run succeeds, they store what the algorithm computes
   from what they loaded, and the premise of the clause, `Novel`: a changed value has content
@@ -42,48 +44,47 @@ open DawgieVerif.Sched DawgieVerif.Reprocess
 /-- The invariant behind the clause, for every reachable state: each unit's stored outputs are
     what its algorithm computes from what is stored now, or its re-run is certain — its source
     data is marked changed, it is released and has not stored yet, it is pending, or a report
-    that makes it pending is on its way. -/
-theorem stale_is_scheduled (g : Graph) (sem : Sem) (T : List Target) (hs : SemOk g sem)
-    (hT : ALL ∉ T) (w0 : W) (h0 : Inv3 g sem T w0) (ops : List WOp) (hv : ValidW g sem w0 ops)
-    (c : Name) (t : Target) (ht : t ∈ T) :
+    that makes it pending is on its way.  Units: (task algorithm, target) and (analysis, ALL). -/
+theorem stale_is_scheduled (g : Graph) (sem : Sem) (T : List Target) (hs : SemOk g T sem)
+    (w0 : W) (h0 : Inv3 g sem T w0) (ops : List WOp) (hv : ValidW g sem T w0 ops)
+    (c : Name) (u : Target) (hu : u ∈ unitsOf g T c) :
     let w := runW g sem.outs w0 ops
-    Fresh sem w c t ∨ (c, t) ∈ w.dirty ∨ ((c, t) ∈ w.s.inflight ∧ (c, t) ∉ keys w.done) ∨
-      t ∈ (w.s.node c).todo ∨ Caused g w c t :=
-  (runW_inv3 g sem T w0 ops hs hT h0 hv).main c t ht
+    Fresh sem w c u ∨ (c, u) ∈ w.dirty ∨ ((c, u) ∈ w.s.inflight ∧ (c, u) ∉ keys w.done) ∨
+      u ∈ (w.s.node c).todo ∨ Caused g w c u :=
+  (runW_inv3 g sem T w0 ops hs h0 hv).main c u hu
 
 /-- The clause, from any state satisfying the invariant. -/
 theorem quiescent_fresh_from (g : Graph) (sem : Sem) (T : List Target) (order : List Name)
-    (hs : SemOk g sem) (hT : ALL ∉ T) (htopo : Topo g sem order)
-    (w0 : W) (h0 : Inv3 g sem T w0) (ops : List WOp) (hv : ValidW g sem w0 ops)
-    (hq : Quiet (runW g sem.outs w0 ops)) (st0 : Val → Content) :
-    ∀ t ∈ T, ∀ c ∈ order, ∀ v ∈ sem.outs c,
-      (runW g sem.outs w0 ops).store v t =
-        scratch sem.outs sem.F (runW g sem.outs w0 ops).source t order st0 v := by
-  intro t ht
-  have hinv := runW_inv3 g sem T w0 ops hs hT h0 hv
+    (hs : SemOk g T sem) (htopo : Topo g sem order)
+    (w0 : W) (h0 : Inv3 g sem T w0) (ops : List WOp) (hv : ValidW g sem T w0 ops)
+    (hq : Quiet (runW g sem.outs w0 ops)) (st0 : Val → Target → Content) :
+    ∀ c ∈ order, ∀ u ∈ unitsOf g T c, ∀ v ∈ sem.outs c,
+      (runW g sem.outs w0 ops).store v u =
+        scratch g T sem.outs sem.F (runW g sem.outs w0 ops).source order st0 v u := by
+  have hinv := runW_inv3 g sem T w0 ops hs h0 hv
   have hfresh := quiet_fresh g sem T _ hinv hq
-  exact fresh_unique g sem hs (runW g sem.outs w0 ops).source t
-    (fun v => (runW g sem.outs w0 ops).store v t) _ order htopo
-    (fun c _ => hfresh c t ht)
-    (scratch_fresh g sem hs _ t order st0 htopo)
+  exact fresh_unique g T sem hs (runW g sem.outs w0 ops).source
+    (runW g sem.outs w0 ops).store _ order htopo
+    (fun c _ u hu => hfresh c u hu)
+    (scratch_fresh g T sem hs _ order st0 htopo)
 
 /-- The clause as stated: start from an idle scheduler on ANY store contents, request every
     algorithm for every target; then after every valid history that ends quiescent, the store
     holds exactly the results of a from-scratch run in dependency order (started from any
-    store `st0`). -/
+    store `st0`) — for every value of every task on every target and of every analysis. -/
 theorem quiescent_fresh (g : Graph) (sem : Sem) (T : List Target) (names order : List Name)
-    (hs : SemOk g sem) (hT : ALL ∉ T) (hall : ∀ c, c ∉ names → sem.outs c = [])
+    (hs : SemOk g T sem) (hT : ALL ∉ T) (hall : ∀ c, c ∉ names → sem.outs c = [])
     (htopo : Topo g sem order)
     (source : Name → Target → Content) (store : Val → Target → Content) (seen : List Content)
-    (ops : List WOp) (hv : ValidW g sem (requested g T names source store seen) ops)
+    (ops : List WOp) (hv : ValidW g sem T (requested g T names source store seen) ops)
     (hq : Quiet (runW g sem.outs (requested g T names source store seen) ops))
-    (st0 : Val → Content) :
-    ∀ t ∈ T, ∀ c ∈ order, ∀ v ∈ sem.outs c,
-      (runW g sem.outs (requested g T names source store seen) ops).store v t =
-        scratch sem.outs sem.F
-          (runW g sem.outs (requested g T names source store seen) ops).source t order st0 v :=
-  quiescent_fresh_from g sem T order hs hT htopo _
-    (requested_inv3 g sem hs T names hT hall source store seen) ops hv hq st0
+    (st0 : Val → Target → Content) :
+    ∀ c ∈ order, ∀ u ∈ unitsOf g T c, ∀ v ∈ sem.outs c,
+      (runW g sem.outs (requested g T names source store seen) ops).store v u =
+        scratch g T sem.outs sem.F
+          (runW g sem.outs (requested g T names source store seen) ops).source order st0 v u :=
+  quiescent_fresh_from g sem T order hs htopo _
+    (requested_inv3 g sem T names hT hall source store seen) ops hv hq st0
 
 /-- ... and nothing runs without a cause afterwards: at quiescence a dispatch tick releases
     nothing and leaves the whole world as it is (so the store stays equal to the from-scratch
@@ -101,14 +102,15 @@ theorem quiet_dispatch_noop (g : Graph) (outs : Name → List Val) (w : W) (hq :
   simp only [stepW, step, h1]
 
 /-- The from-scratch result does not depend on what was in the store before. -/
-theorem scratch_independent (g : Graph) (sem : Sem) (hs : SemOk g sem) (order : List Name)
-    (htopo : Topo g sem order) (source : Name → Target → Content) (t : Target)
-    (st0 st1 : Val → Content) :
-    ∀ c ∈ order, ∀ v ∈ sem.outs c,
-      scratch sem.outs sem.F source t order st0 v = scratch sem.outs sem.F source t order st1 v :=
-  fresh_unique g sem hs source t _ _ order htopo
-    (scratch_fresh g sem hs source t order st0 htopo)
-    (scratch_fresh g sem hs source t order st1 htopo)
+theorem scratch_independent (g : Graph) (sem : Sem) (T : List Target) (hs : SemOk g T sem)
+    (order : List Name) (htopo : Topo g sem order) (source : Name → Target → Content)
+    (st0 st1 : Val → Target → Content) :
+    ∀ c ∈ order, ∀ u ∈ unitsOf g T c, ∀ v ∈ sem.outs c,
+      scratch g T sem.outs sem.F source order st0 v u =
+        scratch g T sem.outs sem.F source order st1 v u :=
+  fresh_unique g T sem hs source _ _ order htopo
+    (scratch_fresh g T sem hs source order st0 htopo)
+    (scratch_fresh g T sem hs source order st1 htopo)
 
 /-- Run ids (the repaired decision of `schedule.organize`): a node that still has pending work
     and is organised again — by a report carrying run id `a` while it is set to run as `b` —
@@ -145,16 +147,17 @@ def g2 : Graph :=
 
 def sem2 : Sem :=
   { outs := fun n => if n = 0 then [10] else if n = 1 then [11] else []
-    F := fun x _ src rd _ => if x = 0 then src + 1 else if x = 1 then 2 * rd 10 + 1 else 0 }
+    prodA := fun _ => false
+    F := fun x u src rd _ => if x = 0 then src + 1 else if x = 1 then 2 * rd 10 u + 1 else 0 }
 
-theorem sem2_ok : SemOk g2 sem2 := by
+theorem sem2_ok : SemOk g2 [1] sem2 := by
   refine ⟨?_, ?_, ?_, ?_, ?_⟩
-  · intro x t src r r' h v
+  · intro x u src r r' h v
     by_cases hx : x = 0
     · simp [sem2, hx]
     · by_cases h1 : x = 1
       · subst h1
-        have := h 10 (by simp [g2])
+        have := h 10 (by simp [g2]) u (by simp [readsT, sem2, g2])
         simp [sem2, this]
       · simp [sem2, hx, h1]
   · intro x y v hx hy
@@ -167,7 +170,7 @@ theorem sem2_ok : SemOk g2 sem2 := by
   · intro x c v hv hc
     simp only [sem2, g2] at *
     by_cases hx0 : x = 0 <;> by_cases hx1 : x = 1 <;> by_cases hc1 : c = 1 <;> simp_all
-  · intro n; simp [g2]
+  · intro x v _; simp [sem2, g2]
 
 example : Topo g2 sem2 [0, 1] := by
   simp [Topo, TopoFrom, g2, sem2]
@@ -175,15 +178,15 @@ example : Topo g2 sem2 [0, 1] := by
 def w2 : W := requested g2 [1] [0, 1] (fun _ _ => 5) (fun _ _ => 0) []
 
 def ops2 : List WOp :=
-  [ .sched .dispatch, .read 0 1 (fun _ => 0), .write 0 1 (fun _ => 6), .reply 0 1 7,
-    .sched .dispatch, .read 1 1 (fun _ => 6), .write 1 1 (fun _ => 13), .reply 1 1 8,
+  [ .sched .dispatch, .read 0 1 (fun _ _ => 0), .write 0 1 (fun _ => 6), .reply 0 1 7,
+    .sched .dispatch, .read 1 1 (fun _ _ => 6), .write 1 1 (fun _ => 13), .reply 1 1 8,
     .poke 0 1 9, .sched (.organize [0] none [1]),
-    .sched .dispatch, .read 0 1 (fun _ => 0), .write 0 1 (fun _ => 10), .reply 0 1 9,
-    .sched .dispatch, .read 1 1 (fun _ => 10), .write 1 1 (fun _ => 21), .reply 1 1 10 ]
+    .sched .dispatch, .read 0 1 (fun _ _ => 0), .write 0 1 (fun _ => 10), .reply 0 1 9,
+    .sched .dispatch, .read 1 1 (fun _ _ => 10), .write 1 1 (fun _ => 21), .reply 1 1 10 ]
 
 /-- the history meets every hypothesis of the theorem (workers follow the protocol, store what
     the algorithms compute, and every changed content is novel) -/
-example : ValidW g2 sem2 w2 ops2 := by decide +kernel
+example : ValidW g2 sem2 [1] w2 ops2 := by decide +kernel
 
 /-- the end state is quiescent, node 1 was re-run by the report alone, and the store holds the
     from-scratch results for the new source data -/
@@ -191,8 +194,8 @@ example :
     let w := runW g2 sem2.outs w2 ops2
     w.s.que = [] ∧ w.s.inflight = [] ∧ w.dirty = [] ∧ w.done = [] ∧
     w.store 10 1 = 10 ∧ w.store 11 1 = 21 ∧
-    scratch sem2.outs sem2.F w.source 1 [0, 1] (fun _ => 0) 10 = 10 ∧
-    scratch sem2.outs sem2.F w.source 1 [0, 1] (fun _ => 0) 11 = 21 := by
+    scratch g2 [1] sem2.outs sem2.F w.source [0, 1] (fun _ _ => 0) 10 1 = 10 ∧
+    scratch g2 [1] sem2.outs sem2.F w.source [0, 1] (fun _ _ => 0) 11 1 = 21 := by
   decide +kernel
 
 /-- halfway (node 0 has stored its new result, the report is still on its way) node 1 is stale
@@ -200,7 +203,7 @@ example :
 example :
     let w := runW g2 sem2.outs w2 (ops2.take 13)
     w.store 10 1 = 10 ∧ w.store 11 1 = 13 ∧ (w.s.node 1).todo = [] ∧
-    w.done = [((0, 1), [10])] ∧ dependents g2 0 [10] = [1] := by
+    w.done = [((0, 1), [10])] ∧ dependents g2 0 [10] = [1] ∧ wanted g2 w.s.targets [1] 1 = [1] := by
   decide +kernel
 
 /-! The premise is needed: the source data of node 0 goes back to its first value, node 0 writes
@@ -209,15 +212,98 @@ example :
     `Novel` hypothesis of that write fails (the history is valid up to it). -/
 def ops3 : List WOp :=
   ops2 ++ [ .poke 0 1 5, .sched (.organize [0] none [1]), .sched .dispatch,
-            .read 0 1 (fun _ => 0), .write 0 1 (fun _ => 6), .reply 0 1 11 ]
+            .read 0 1 (fun _ _ => 0), .write 0 1 (fun _ => 6), .reply 0 1 11 ]
 
 example :
     let w := runW g2 sem2.outs w2 ops3
     w.s.que = [] ∧ w.s.inflight = [] ∧ w.dirty = [] ∧ w.done = [] ∧
     w.store 10 1 = 6 ∧ w.store 11 1 = 21 ∧
-    scratch sem2.outs sem2.F w.source 1 [0, 1] (fun _ => 0) 11 = 13 ∧
-    ValidW g2 sem2 w2 (ops3.take 22) ∧ ¬ ValidW g2 sem2 w2 (ops3.take 23) ∧
+    scratch g2 [1] sem2.outs sem2.F w.source [0, 1] (fun _ _ => 0) 11 1 = 13 ∧
+    ValidW g2 sem2 [1] w2 (ops3.take 22) ∧ ¬ ValidW g2 sem2 [1] w2 (ops3.take 23) ∧
     novelB (sem2.outs 0) (runW g2 sem2.outs w2 (ops3.take 22)) 1 (fun _ => 6) = false := by
+  decide +kernel
+
+/-! non-vacuity with an analysis: task 0 (per target) → analysis 1 (over both targets, result
+    under the all-targets marker) → task 2 (per target, reads the analysis).  New source data
+    for task 0 on target 2 only: the analysis is re-run, and then task 2 on BOTH targets. -/
+def g3 : Graph :=
+  { kind := fun n => if n = 1 then .analysis else .task
+    children := fun n => if n = 0 then [1] else if n = 1 then [2] else []
+    desc := fun n => if n = 0 then [0, 1, 2] else if n = 1 then [1, 2] else [n]
+    ancestry := fun n => if n = 1 then [0] else if n = 2 then [0, 1] else []
+    consumes := fun n => if n = 1 then [10] else if n = 2 then [11] else []
+    feedbackTo := fun _ => none
+    level := fun n => n }
+
+def sem3 : Sem :=
+  { outs := fun n => if n = 0 then [10] else if n = 1 then [11] else if n = 2 then [12] else []
+    prodA := fun v => v == 11
+    F := fun x u src rd _ =>
+      if x = 0 then src + 1 else if x = 1 then rd 10 1 + rd 10 2 else if x = 2 then 2 * rd 11 ALL + u
+      else 0 }
+
+theorem sem3_ok : SemOk g3 [1, 2] sem3 := by
+  refine ⟨?_, ?_, ?_, ?_, ?_⟩
+  · intro x u src r r' h v
+    by_cases hx : x = 0
+    · simp [sem3, hx]
+    · by_cases h1 : x = 1
+      · subst h1
+        have a := h 10 (by simp [g3]) 1 (by simp [readsT, sem3, g3])
+        have b := h 10 (by simp [g3]) 2 (by simp [readsT, sem3, g3])
+        simp [sem3, a, b]
+      · by_cases h2 : x = 2
+        · subst h2
+          have a := h 11 (by simp [g3]) ALL (by simp [readsT, sem3, g3])
+          simp [sem3, a]
+        · simp [sem3, hx, h1, h2]
+  · intro x y v hx hy
+    simp only [sem3] at hx hy
+    by_cases hx0 : x = 0 <;> by_cases hx1 : x = 1 <;> by_cases hx2 : x = 2 <;>
+      by_cases hy0 : y = 0 <;> by_cases hy1 : y = 1 <;> by_cases hy2 : y = 2 <;> simp_all
+  · intro x v hv
+    simp only [sem3, g3] at *
+    by_cases hx0 : x = 0 <;> by_cases hx1 : x = 1 <;> by_cases hx2 : x = 2 <;> simp_all
+  · intro x c v hv hc
+    simp only [sem3, g3] at *
+    by_cases hx0 : x = 0 <;> by_cases hx1 : x = 1 <;> by_cases hx2 : x = 2 <;>
+      by_cases hc1 : c = 1 <;> by_cases hc2 : c = 2 <;> simp_all
+  · intro x v hv
+    simp only [sem3, g3] at *
+    by_cases hx0 : x = 0 <;> by_cases hx1 : x = 1 <;> by_cases hx2 : x = 2 <;> simp_all
+
+def w3 : W := requested g3 [1, 2] [0, 1, 2] (fun _ t => 5 + 10 * t) (fun _ _ => 0) []
+
+def snap3 (a b c : Content) : Val → Target → Content :=
+  fun v t => if v = 10 ∧ t = 1 then a else if v = 10 ∧ t = 2 then b else if v = 11 ∧ t = ALL then c else 0
+
+def ops3a : List WOp :=
+  [ .sched .dispatch,
+    .read 0 1 (snap3 0 0 0), .write 0 1 (fun _ => 16), .reply 0 1 1,
+    .read 0 2 (snap3 16 0 0), .write 0 2 (fun _ => 26), .reply 0 2 1,
+    .sched .dispatch,
+    .read 1 ALL (snap3 16 26 0), .write 1 ALL (fun _ => 42), .reply 1 ALL 2,
+    .sched .dispatch,
+    .read 2 1 (snap3 16 26 42), .write 2 1 (fun _ => 85), .reply 2 1 3,
+    .read 2 2 (snap3 16 26 42), .write 2 2 (fun _ => 86), .reply 2 2 3,
+    .poke 0 2 30, .sched (.organize [0] none [2]), .sched .dispatch,
+    .read 0 2 (snap3 16 26 42), .write 0 2 (fun _ => 31), .reply 0 2 4,
+    .sched .dispatch,
+    .read 1 ALL (snap3 16 31 42), .write 1 ALL (fun _ => 47), .reply 1 ALL 5,
+    .sched .dispatch,
+    .read 2 2 (snap3 16 31 47), .write 2 2 (fun _ => 96), .reply 2 2 6,
+    .read 2 1 (snap3 16 31 47), .write 2 1 (fun _ => 95), .reply 2 1 6 ]
+
+example : Topo g3 sem3 [0, 1, 2] := by simp [Topo, TopoFrom, g3, sem3]
+
+example : ValidW g3 sem3 [1, 2] w3 ops3a := by decide +kernel
+
+example :
+    let w := runW g3 sem3.outs w3 ops3a
+    w.s.que = [] ∧ w.s.inflight = [] ∧ w.dirty = [] ∧
+    w.store 11 ALL = 47 ∧ w.store 12 1 = 95 ∧ w.store 12 2 = 96 ∧
+    scratch g3 [1, 2] sem3.outs sem3.F w.source [0, 1, 2] (fun _ _ => 0) 12 1 = 95 ∧
+    scratch g3 [1, 2] sem3.outs sem3.F w.source [0, 1, 2] (fun _ _ => 0) 11 ALL = 47 := by
   decide +kernel
 
 /-- a later report of an older run (3) does not move the pending node back from run 7 -/
